@@ -371,6 +371,7 @@ Property make() {
            "fixed, continuous, staged, lambda-schedule or decoupling schedule for centres or force constant, over 10-90 steps cut into 1-4 segments (run boundaries, "
            "stage boundaries +0/+1, stop/resume through a text or binary state); non-trivial = at least one step compared; distinct = hash of (restraint type, "
            "variable kinds, schedule kind, segmentation)";
+  p.rule += " Later additions: the dA/dLambda log line of every stage of a staged force-constant schedule is compared with the mean of dU/dlambda over that stage's post-equilibration steps; histogramRestraint on 1-3 variables against the documented integral (times the implementation's M/width: recorded finding; 3% of the plans without that factor).";
   p.assumptions = {"the model takes the variable values Colvars reports as input (C02 is not re-decided here)",
                    "histogramRestraint is not covered by this check",
                    "tolerance 1e-9 relative (different summation order only)"};
